@@ -7,6 +7,7 @@ import (
 	"errors"
 	"fmt"
 	"slices"
+	"strconv"
 	"strings"
 )
 
@@ -303,6 +304,59 @@ func EachNegatedGood(items []item) []string {
 		if !(it.Hidden) {
 			out = append(out, it.Name)
 		}
+	}
+	return out
+}
+
+// ---- one dispatch, three ways of writing it -------------------------------------------------
+
+func DispatchSwitch(k string) int {
+	switch k {
+	case "a":
+		return 1
+	case "b":
+		return 2
+	}
+	return 0
+}
+
+func DispatchIf(k string) int {
+	if k == "a" {
+		return 1
+	}
+	if k != "b" {
+		return 0
+	}
+	return 2
+}
+
+var dispatchTable = map[string]int{"a": 1, "b": 2}
+
+func DispatchMap(k string) int { return dispatchTable[k] }
+
+// ---- one string shape, three ways of composing it -----------------------------------------------
+
+func ShapeSprintf(n int, s string) string { return fmt.Sprintf("P%d%s", n, s) }
+
+func ShapeConcat(n int, s string) string { return "P" + strconv.Itoa(n) + s }
+
+func ShapeBuilder(n int, s string) string {
+	var b strings.Builder
+	b.WriteString("P")
+	b.WriteString(strconv.Itoa(n))
+	b.WriteString(s)
+	return b.String()
+}
+
+// ---- index loops are range loops ---------------------------------------------------------------------
+
+func EachIndexGood(items []item) []string {
+	var out []string
+	for i := 0; i < len(items); i++ {
+		if items[i].Hidden {
+			continue
+		}
+		out = append(out, items[i].Name)
 	}
 	return out
 }
